@@ -113,6 +113,32 @@ func runC07(res *lib.Result, tier string, seed int64, args []string) error {
 				}
 			}
 		}
+		// the same idiom in its general form (ignoreCircleDefine): a read that is a direct operand of == ~= and or,
+		// on the very line on which the name is assigned
+		sameLineOperand := func(loc string) bool {
+			for _, o := range occs {
+				if o.kind != "U" || occLoc(o) != loc {
+					continue
+				}
+				assigned := false
+				for _, w := range occs {
+					if w.kind == "W" && w.name == o.name && w.sl == o.sl {
+						assigned = true
+					}
+				}
+				if !assigned {
+					return false
+				}
+				l := lines[o.sl-1]
+				before, after := strings.TrimRight(l[:o.sc], " ("), strings.TrimLeft(l[o.sc+len(o.name):], " )")
+				for _, op := range []string{"or", "and", "==", "~="} {
+					if strings.HasSuffix(before, op) || strings.HasPrefix(after, op) {
+						return true
+					}
+				}
+			}
+			return false
+		}
 		var missing, extra []string
 		for k := range want {
 			if !got[k] {
@@ -135,7 +161,7 @@ func runC07(res *lib.Result, tier string, seed int64, args []string) error {
 		var rest []string
 		for _, k := range missing {
 			excused := false
-			if (strings.HasPrefix(k, "t2@") || strings.HasPrefix(k, "t3@")) && selfAssignRead[k[3:]] {
+			if (strings.HasPrefix(k, "t2@") || strings.HasPrefix(k, "t3@")) && (selfAssignRead[k[3:]] || sameLineOperand(k[3:])) {
 				res.HitKnown("C07-K2", "the right-hand x of 'x = x' / 'x = x or v' is never reported as undefined / defined later (documented suppression idiom), also when x really has no earlier definition", fmt.Sprintf("%s in\n%s", k, src))
 				res.Dist("hit.C07-K2")
 				continue
